@@ -126,9 +126,10 @@ def expected_regular(ys: YearStarts, n: int, y: int, min_days: int, fdow: int) -
     return wy, (s - first_week_start(ys, wy, min_days, fdow)) // 7 + 1
 
 
-def walk(ctx: Ctx, spec, cid: str, lo: int, hi: int, ys: YearStarts | None = None) -> tuple[int, int]:
-    """Contiguous walk of [lo, hi] for one rule and calendar. Returns (evaluations, non-trivial)."""
-    rule, min_days, fdow, irregular = make_rule(spec)
+def walk(ctx: Ctx, spec, cid: str, lo: int, hi: int, ys: YearStarts | None = None, made=None) -> tuple[int, int]:
+    """Contiguous walk of [lo, hi] for one rule and calendar. Returns (evaluations, non-trivial).
+    `made` lets several walks (different calendars) share ONE rule object, as applications do."""
+    rule, min_days, fdow, irregular = made or make_rule(spec)
     cal = pyo.cal(cid)
     ys = ys or YearStarts(cid)
     prev = None
@@ -311,6 +312,27 @@ def task_walks(ctx: Ctx, cal: str, specs: list, windows: list[list[int]]) -> Non
     ctx.sample("walk", {"rule": specs[0], "cal": cal, "n": windows[0][0], "to": windows[0][1]}, True)
 
 
+def task_shared_rule(ctx: Ctx, specs: list, years: list[int]) -> None:
+    """One rule object per spec, used across ALL calendars for the same week-year numbers (a rule is a value object:
+    its answers must not depend on which calendars it was asked about before)."""
+    ev = nt = 0
+    yss = {cid: YearStarts(cid) for cid in pyo.cal_ids()}
+    for spec in specs:
+        made = make_rule(spec)
+        for y in years:
+            for cid in pyo.cal_ids():
+                c = pyo.cal(cid)
+                if not c.min_year <= y <= c.max_year:
+                    continue
+                s0 = yss[cid].start(y)
+                lo, hi = max(c._min_days, s0 - 9), min(c._max_days, s0 + 9)
+                e, t = walk(ctx, spec, cid, lo, hi, yss[cid], made)
+                ev += e
+                nt += t
+    ctx.bulk(ev, nt, "walk:shared-rule")
+    ctx.sample("walk", {"rule": specs[0], "cal": "Hijri Civil-Base15", "n": 0, "shared_rule_over_all_calendars_for_years": years[:5]}, True)
+
+
 def task_iso(ctx: Ctx, lo: int, hi: int) -> None:
     from pyoda_time.calendars import WeekYearRules
 
@@ -398,6 +420,10 @@ def tasks(tier: str, seed: int) -> list[Task]:
             for wi, wc in enumerate(wchunks):
                 if g and wc:
                     out.append(Task("task_walks", {"cal": cid, "specs": g, "windows": wc}, f"walk-{cid}-{gi}-{wi}"))
+    # shared rule objects across calendars (years that exist in most calendars, incl. the Um Al Qura / Badi ranges)
+    shared_years = sorted({1 + sub_seed(seed, "c16s", i) % 1400 for i in range(12 if not thorough else 200)} | {1394, 1400, 180, 5})
+    for gi in range(8):
+        out.append(Task("task_shared_rule", {"specs": specs[gi::8], "years": shared_years}, f"shared-{gi}"))
     if thorough:
         ylist = list(range(1, 10000))
     else:
